@@ -744,6 +744,15 @@ var cloneSpecs = []cloneSpec{
 	{fn: "tabula.ExtractOptions.clone", pkg: "tabula", typ: "ExtractOptions", aliasOK: map[string]string{}, optional: true},
 }
 
+// resourceState: fields of Extractor that describe the open resource, not the configuration. Whether a derived
+// extractor gets them is a question of ownership (R10.11), not of completeness of the copy.
+var resourceState = map[string]string{
+	"ownsReader":   "the duty to close the reader is not inherited (R10.11)",
+	"readerOpened": "state of the reader; a copy without a reader opens its own",
+	"reader":       "handle; shared only when nobody here owns it (R10.11)", "docxReader": "handle (R10.11)", "odtReader": "handle (R10.11)",
+	"xlsxReader": "handle (R10.11)", "pptxReader": "handle (R10.11)", "htmlReader": "handle (R10.11)", "epubReader": "handle (R10.11)",
+}
+
 func ruleCloneComplete(c *eng.Ctx) {
 	R := "R3.3-CLONE"
 	if c.Prop == "C10" {
@@ -775,6 +784,8 @@ func ruleCloneComplete(c *eng.Ctx) {
 				pos = fn.Pos()
 			}
 			switch {
+			case !fc.Assigned && resourceState[name] != "":
+				c.Ok(R, key, pos, "not a setting: "+resourceState[name])
 			case !fc.Assigned:
 				c.Viol(R, key, pos, "field "+name+" is not copied by "+sp.fn+": a derived value silently loses this setting")
 			case !fc.FromSame && !fc.Fresh:
